@@ -12,6 +12,7 @@ require (
 	github.com/prometheus/client_golang v1.16.0
 	github.com/tidwall/gjson v1.18.0
 	github.com/twmb/franz-go v1.20.7
+	github.com/twmb/franz-go/pkg/kmsg v1.12.0
 	go.uber.org/zap v1.27.0
 	k8s.io/api v0.34.2
 )
@@ -76,7 +77,6 @@ require (
 	github.com/tidwall/pretty v1.2.1 // indirect
 	github.com/timtadh/data-structures v0.6.1 // indirect
 	github.com/timtadh/lexmachine v0.2.3 // indirect
-	github.com/twmb/franz-go/pkg/kmsg v1.12.0 // indirect
 	github.com/twmb/franz-go/plugin/kzap v1.1.2 // indirect
 	github.com/twmb/tlscfg v1.2.1 // indirect
 	github.com/valyala/bytebufferpool v1.0.0 // indirect
